@@ -493,6 +493,8 @@ def run(ctx):
 
     # ---- R7 routing table ----------------------------------------------------------
     r7 = ctx.rule('R7', 'task state -> on-clause routing table', 'STATE')
+    from mstatic.rules import shared as _shg
+    _shg.clause_getters_agree(ctx, r7)
     fn = prog.func(DWC + '._find_next_tasks')
     cfg = ctx.cfg(fn)
     IN, keys = sd.analyze(cfg, fn, [('t_s', sd.state_domain),
